@@ -81,8 +81,12 @@ Inductive item :=
 | IDecl (e : ent)
 | IUseAll (p : N)              (* use lib.p.all *)
 | IUseName (p : N) (d : des)   (* use lib.p.d *)
+| IUseCtx (c : N)              (* context lib.c : stands for the clauses of context declaration c, in place *)
 | ISite (s : site)
-| IOpen                        (* block / process: a nested declarative region opens *)
+| IOpen                        (* block / process / branch of an if generate / alternative of a case
+                                  generate / for generate: a nested declarative region opens; regions
+                                  opened one after the other in the same region are siblings and
+                                  independent of each other *)
 | IOpenFun (f param : ent)     (* function body: f is declared in the current region (unless it
                                   completes an earlier declaration), its region starts with param *)
 | IClose.
@@ -282,6 +286,15 @@ Fixpoint tab_find (t : utable) (u : N) : option (list item * list item) :=
   | [] => None
   | (k, v) :: r => if k =? u then Some v else tab_find r u
   end.
+(* a context declaration is recorded like a primary unit whose declarative region holds its
+   (already expanded) library/use clauses *)
+Definition is_use (it : item) : bool :=
+  match it with IUseAll _ | IUseName _ _ => true | _ => false end.
+Definition tab_ctx (t : utable) (c : N) : list item :=
+  match tab_find t c with Some (_, dp) => filter is_use dp | None => [] end.
+Definition expand_item (t : utable) (it : item) : list item :=
+  match it with IUseCtx c => tab_ctx t c | _ => [it] end.
+Definition expand_items (t : utable) (its : list item) : list item := flat_map (expand_item t) its.
 Definition tab_pkgs (t : utable) (p : N) : list ent :=
   match tab_find t p with Some (_, dp) => decls_of dp | None => [] end.
 
@@ -298,6 +311,7 @@ Definition spec_item (tb : utable) (ch : list (list item)) (it : item)
   : list (list item) * list (N * answer) :=
   match it with
   | IDecl _ | IUseAll _ | IUseName _ _ => (push_top it ch, [])
+  | IUseCtx c => (fold_left (fun ch' i => push_top i ch') (tab_ctx tb c) ch, [])
   | ISite s =>
       (ch, match suse s with
            | UCallX x t =>
@@ -324,11 +338,11 @@ Fixpoint spec_items (t : utable) (ch : list (list item)) (its : list item)
 
 Definition unit_chain (t : utable) (u : unit) : list (list item) :=
   match ukd u with
-  | UPrimary => [[]; std_context ++ uctx u]
+  | UPrimary => [[]; std_context ++ expand_items t (uctx u)]
   | USecondary q =>
       match tab_find t q with
-      | Some (rp, dp) => [dp; rp ++ uctx u]
-      | None => [[]; std_context ++ uctx u]
+      | Some (rp, dp) => [dp; rp ++ expand_items t (uctx u)]
+      | None => [[]; std_context ++ expand_items t (uctx u)]
       end
   end.
 
